@@ -49,6 +49,10 @@ LEVEL_TEXT = (
     "(= op= ++ -- on array-index, *p and p->f designations, nested, with commas) is emitted exactly once and every assignment stores "
     "exactly once - the designation of a compound assignment is evaluated once; the model's load/store/call sequence is compared "
     "verbatim with the real emitted function for every assignment operator on every lvalue form. "
+    "(switch) in the model of gen_switch/gen_case/gen_default every switch dispatches on exactly the case/default labels that "
+    "lexically belong to it, in source order, for any nesting, and lowering a nested statement leaves the enclosing switch's label "
+    "dictionary unchanged (save/restore); compared with the dispatch chains of the real emitted function for every generated "
+    "control-flow program. "
     "sizeof expressions are EXCLUDED from the typing and value theorems: ppci gives them a signed type (open finding, Lean-proved "
     "witnesses). The models are hand-written; their tables are re-checked (decide) against a dump of the live objects on every run, "
     "and they are tied to the source by a differential run that is EXHAUSTIVE over operator x type x type for typing and emitted code "
@@ -201,6 +205,7 @@ def regen(ctx):
 # cases
 from . import c01_lib as L  # noqa: E402
 from . import c01_stmt as ST  # noqa: E402
+from . import c01_flow as FL  # noqa: E402
 
 PPCI_TYPES = ["char", "uchar", "short", "ushort", "int", "uint", "long", "ulong", "llong", "ullong"]
 
@@ -393,7 +398,10 @@ def check(ctx):
     ltypes, ljobs, lreqs, lsub = layout_prepare(ctx)
     sjobs = stmt_prepare(ctx)
     ejobs, ereqs, efam = events_prepare(ctx)
-    all_results = L.run_units(jobs + ljobs + sjobs + ejobs)
+    fjobs, freqs = flow_prepare(ctx)
+    all_results = L.run_units(jobs + ljobs + sjobs + ejobs + fjobs)
+    fresults = all_results[len(jobs) + len(ljobs) + len(sjobs) + len(ejobs):]
+    all_results = all_results[:len(jobs) + len(ljobs) + len(sjobs) + len(ejobs)]
     results, lresults = all_results[:len(jobs)], all_results[len(jobs):len(jobs) + len(ljobs)]
     sresults = all_results[len(jobs) + len(ljobs):len(jobs) + len(ljobs) + len(sjobs)]
     eresults = all_results[len(jobs) + len(ljobs) + len(sjobs):]
@@ -434,9 +442,10 @@ def check(ctx):
         for args in c["argvs"]:
             env = "[" + ",".join(str(a) for a in args) + "]"
             reqs += [f"seval {env} {p}", f"rieval {env} {p}"]
-    all_replies = ctx.driver("C01", reqs + lreqs + ereqs)
+    all_replies = ctx.driver("C01", reqs + lreqs + ereqs + freqs)
     replies, lreplies = all_replies[:len(reqs)], all_replies[len(reqs):len(reqs) + len(lreqs)]
-    ereplies = all_replies[len(reqs) + len(lreqs):]
+    ereplies = all_replies[len(reqs) + len(lreqs):len(reqs) + len(lreqs) + len(ereqs)]
+    freplies = all_replies[len(reqs) + len(lreqs) + len(ereqs):]
     phases["driver"] = round(time.time() - t0, 1)
     t0 = time.time()
 
@@ -555,9 +564,23 @@ def check(ctx):
             for k in sjobs[0]["ks"][n][:1]:
                 stmt_ir.append((len(ir_lines), n, f, k))
                 ir_lines.append(f"run {n} 200000 {k}")
+    flow_ir = []
+    if fresults and "error" not in fresults[0] and fresults[0].get("irtext"):
+        ir_lines += ["config ptr 8", "load " + fresults[0]["irtext"], "wf"]
+        for n, f in zip(fjobs[0]["names"], fjobs[0]["fs"]):
+            for args in fjobs[0]["argvs"][n][: (6 if thorough else 3)]:
+                flow_ir.append((len(ir_lines), n, f, args))
+                ir_lines.append(f"run {n} 400000 {args[0]} {args[1]}")
     if ir_lines:
         ir_rep = ctx.driver("IR", ir_lines)
         from . import irrun
+        for pos, n, f, args in flow_ir:
+            ctx.count("eval_flow_specir")
+            want = FL.run_reference(f, args[0], args[1])
+            got = irrun.strip_steps(ir_rep[pos])[3:]
+            if got != want:
+                ctx.fail("cflow:specir:" + stmt_diff(got, want), f"{n}({args[0]}, {args[1]}): Spec.IR run of the emitted function gives "
+                         f"`{got[:200]}`, C gives `{want[:200]}`", {"function": FL.c_function(n, f), "args": args})
         for pos, n, f, k in stmt_ir:
             ctx.count("eval_stmt_specir")
             want = ST.expected(f, k, sresults[0]["order"])
@@ -588,6 +611,7 @@ def check(ctx):
     check_tables(ctx)
     stmt_finish(ctx, sjobs, sresults)
     events_finish(ctx, ejobs, eresults, ereplies, efam)
+    flow_finish(ctx, fjobs, fresults, freplies)
     check_layout(ctx, ltypes, lresults, lreplies, lsub)
     phases["layout"] = round(time.time() - t0, 1)
     t0 = time.time()
@@ -1083,6 +1107,66 @@ def events_finish(ctx, jobs, results, replies, fam):
                          f"{got[0]}, {got[1]} and {got[2]}: events `{real}` (model: `{model}`)", {"label": label, "c": text})
             elif len(w) > 3:
                 ctx.nontrivial(("assign-events", label))
+
+
+def flow_prepare(ctx):
+    """control flow with code-generator state (nested switch / loops / break / continue / goto): see harness/c01_flow.py"""
+    g = FL.Gen(ctx.rng)
+    fs = FL.corpus_functions() + [g.function() for _ in range(220 if ctx.thorough else 14)]
+    jobs, reqs, per = [], [], 20
+    for k in range(0, len(fs), per):
+        chunk = fs[k:k + per]
+        names = [f"w{k + j}" for j in range(len(chunk))]
+        src = FL.PRELUDE + "\n".join(FL.c_function(n, f) for n, f in zip(names, chunk)) + "\n"
+        argvs = {n: FL.arg_vectors(f, ctx.rng, 40 if ctx.thorough else 14) for n, f in zip(names, chunk)}
+        jobs.append({"kind": "flow", "src": src, "names": names, "argvs": argvs, "fs": chunk, "spec_ir": k == 0})
+        reqs += ["switches " + FL.sw_proto_list(f["body"]) for f in chunk]
+    return jobs, reqs
+
+
+def flow_finish(ctx, jobs, results, replies):
+    k = 0
+    for job, res in zip(jobs, results):
+        if "error" in res:
+            k += len(job["names"])
+            ctx.fail("cflow:compile:" + res["error"].split(":")[0], f"the front-end does not compile a generated program: {res['error']}",
+                     {"source": job["src"]})
+            continue
+        gcc = None
+        if ctx.thorough:
+            gcc, err = FL.run_gcc(job["src"], job["names"], job["argvs"])
+            if gcc is None:
+                raise common.BrokenCheck("gcc rejected a generated control-flow program: " + err)
+        for n, f in zip(job["names"], job["fs"]):
+            text = FL.c_function(n, f)
+            model = replies[k][3:]
+            k += 1
+            # the label bookkeeping: dispatch chains of the real function vs Model.CSwitch (= what the source prescribes)
+            ctx.count("eval_switch_structure")
+            chains = res["switches"][n]
+            real = FL.real_switch_text(chains)
+            if real != model:
+                ctx.disagree("switch-dispatch", {"function": text}, real, model)
+                ctx.fail("cflow:switch-labels", f"{n}: the switches of the emitted function dispatch on `{real}` (constants in order | D = has a "
+                         f"default target), the source prescribes `{model}`", {"function": text}, impl=real, spec=model)
+            for i, why in FL.default_targets_ok(chains):
+                ctx.fail("cflow:switch-default-target", f"{n}: the default jump of switch #{i} goes to a block {why} of its own body",
+                         {"function": text})
+            for j, args in enumerate(job["argvs"][n]):
+                ctx.count("eval_flow")
+                want = FL.run_reference(f, args[0], args[1])
+                if gcc is not None:
+                    ctx.count("eval_flow_gcc")
+                    if gcc[n][j] != want:
+                        raise common.BrokenCheck(f"the reference evaluator disagrees with gcc on {n}({args[0]}, {args[1]}): gcc "
+                                                 f"`{gcc[n][j]}`, evaluator `{want}`\n{text}")
+                got = res["rows"][n][j]
+                if got != want:
+                    ctx.fail("cflow:differs:" + stmt_diff(got, want),
+                             f"{n}({args[0]}, {args[1]}): ppci front-end + ir_to_python gives `{got[:240]}`, C gives `{want[:240]}`",
+                             {"function": text, "args": args}, impl=got, spec=want)
+                else:
+                    ctx.nontrivial(("flow", text, tuple(args)))
 
 
 def stmt_diff(got, want):
